@@ -384,8 +384,12 @@ static void run_case(const json& c, json& r) {
     std::string path;
     if (via == "file") {
         path = g_tmpdir + "/c03_" + std::to_string(::getpid()) + "." + fstr;
-        const int fd = ::open(path.c_str(), O_WRONLY | O_CREAT | O_TRUNC, 0600);
-        if (fd < 0) throw std::runtime_error("harness: cannot create " + path);
+        int fd = ::open(path.c_str(), O_WRONLY | O_CREAT | O_TRUNC, 0600);
+        if (fd < 0) {                                   // scratch directory removed under our feet: recreate once
+            ::mkdir(g_tmpdir.c_str(), 0700);
+            fd = ::open(path.c_str(), O_WRONLY | O_CREAT | O_TRUNC, 0600);
+        }
+        if (fd < 0) throw std::runtime_error("harness: cannot create " + path + ": " + std::strerror(errno));
         size_t off = 0;
         while (off < bytes.size()) {
             const ssize_t n = ::write(fd, bytes.data() + off, bytes.size() - off);
